@@ -40,7 +40,29 @@ for P in $props; do
   needs=$(grep -h '^// verif:needs' $f | sed 's#// verif:needs##')
   extra=""
   for d in $needs; do extra="$extra cmd/runimpl/$d.go"; done
-  if ! go build -overlay ../build/overlay.json -o ../build/runimpl-$(echo $P | tr a-z A-Z) $shared $f $extra; then
+  # optional accessor families: `// verif:tags t1,t2` in cNN.go; when the tagged build fails (an accessor no longer fits
+  # the repository's code) the driver is built without the tags and the family records itself as unavailable
+  tags=$(grep -h '^// verif:tags' $f | sed 's#// verif:tags##' | tr -d ' ')
+  # go build ignores build constraints of files named on the command line: select the shared files by their first line
+  # (`//go:build tag` / `//go:build !tag`) ourselves
+  pick() { # $1 = active tag ('' for none)
+    for s in $shared; do
+      l=$(head -1 $s)
+      case "$l" in
+        "//go:build !"*) t=${l#//go:build !}; [ "$t" = "$1" ] || echo $s;;
+        "//go:build "*) t=${l#//go:build }; [ "$t" = "$1" ] && echo $s;;
+        *) echo $s;;
+      esac
+    done
+  }
+  built=0
+  if [ -n "$tags" ]; then
+    if go build -tags "$tags" -overlay ../build/overlay.json -o ../build/runimpl-$(echo $P | tr a-z A-Z) $(pick "$tags") $f $extra 2> ../build/runimpl-$P.tags.log; then built=1; else
+      echo "note: runimpl-$P does not build with tags $tags (see build/runimpl-$P.tags.log); building without" >&2
+    fi
+  fi
+  shared_sel=$(pick "")
+  if [ $built = 1 ]; then :; elif ! go build -overlay ../build/overlay.json -o ../build/runimpl-$(echo $P | tr a-z A-Z) $shared_sel $f $extra; then
     echo "build of runimpl-$P failed" >&2
     rm -f ../build/runimpl-$(echo $P | tr a-z A-Z)
     rc=1
